@@ -402,16 +402,18 @@ func (pe *programExecutor) executeStoreSector(instr *rhp3.InstrStoreSector, log 
 	root := rhp2.SectorRoot(sector)
 	log.Debug("calculated sector root", zap.Duration("duration", time.Since(rootCalcStart)))
 
-	// pay for execution
-	cost := pe.priceTable.StoreSectorCost(instr.Duration)
-	if err := pe.payForExecution(cost, costToAccountUsage(cost)); err != nil {
-		return nil, fmt.Errorf("failed to pay for instruction: %w", err)
-	}
-
+	// the duration is chosen by the renter, it must be checked before it is
+	// used to calculate the cost
 	if instr.Duration == 0 {
 		return nil, fmt.Errorf("duration cannot be 0")
 	} else if instr.Duration > storage.MaxTempSectorBlocks {
 		return nil, fmt.Errorf("duration cannot be greater than %d", storage.MaxTempSectorBlocks)
+	}
+
+	// pay for execution
+	cost := pe.priceTable.StoreSectorCost(instr.Duration)
+	if err := pe.payForExecution(cost, costToAccountUsage(cost)); err != nil {
+		return nil, fmt.Errorf("failed to pay for instruction: %w", err)
 	}
 
 	// store the sector
